@@ -160,7 +160,30 @@ R = {
 PROPERTIES = {}
 
 
+# Defects of the package found by an independent testing round (DESIGN section 16) that no rule reports: the behaviour
+# stated by the property is violated on legal inputs although every structural clause below is discharged.
+OPEN_DEFECTS = {
+    "D5": ("`))` pops one branch anchor: {[#A]([#B]([#C]))[#D]} attaches D to B", ["C04", "C01", "C11", "C14", "C20", "C05", "C02"]),
+    "D6": ("`|n` inside a coarse fragment shifts descriptor and annotation indices: {#X=[#A]|3[#C][$]}", ["C13", "C06", "C02", "C03", "C05", "C14", "C16"]),
+    "D7": ("coarse fragment nodes are parsed with the atomistic dialect: {#X=[#B;q=1]} gives charge 0", ["C14", "C13", "C02", "C20"]),
+    "D8": ("nested / repeated branch multipliers are not the written-out graph: {[#A]([#B]([#C])[#D])|3}", ["C05", "C06", "C11", "C20"]),
+    "D9": ("a bond order at the closing ring marker is dropped: {[#A]1[#B][#C]=1}", ["C04", "C01"]),
+    "D10": ("long keywords charge= / weight= are overwritten by the default: {[#A;charge=1]}", ["C04", "C14"]),
+    "D11": ("the aromatic correction reads stale hydrogen counts ([nH] next to a cut, S/O in lowercase rings, shared aromatic atoms)", ["C01", "C09", "C10"]),
+    "D12": ("squash keeps only fragid/mapping of the removed copy (annotations, weights, E/Z marks, names)", ["C10", "C14", "C15", "C18", "C12", "C02"]),
+    "D13": ("cis/trans depends on the order of the fragments; a slash before a descriptor marks the next atom", ["C15", "C10"]),
+    "D14": ("greedy first-match pairing gives fewer bonds than the edge order for ambiguous descriptors", ["C03", "C08"]),
+    "D15": ("coarse fragments are written with the fragment's own name for every node: {#A=[#B][$][#C]}", ["C08"]),
+    "D16": ("element masses count a hydrogen per open descriptor; labels ending in a digit are read as orders in the tables", ["C17"]),
+    "D17": ("the RDKit bridge re-perceives aromaticity and rewrites pentavalent N; UFF fails on order-0 bonds", ["C18"]),
+    "D18": ("a dangling ring index inside an all-atom fragment is accepted; a lone node without fragment resolves to nothing", ["C20"]),
+}
+
+
 def prop(pid, rules, decided, undecided, floors=None, assumptions=None):
+    known = ["%s (%s)" % (k, v[0]) for k, v in OPEN_DEFECTS.items() if pid in v[1]]
+    if known:
+        undecided = undecided + "; KNOWN VIOLATIONS of the behaviour outside the decided clauses, found by testing and not reported by any rule (DESIGN 16): " + "; ".join(known)
     PROPERTIES[pid] = {"rules": [R[r] for r in rules], "rule_names": rules,
                        "explanation": EXPL + " Decided for %s: %s. Not decided: %s." % (pid, decided, undecided),
                        "decided": decided, "undecided": undecided,
@@ -267,7 +290,7 @@ prop("C16", ["det_loop_state_sampler", "prov_sampler_setup", "da_self_attrs_samp
      floors={"DET.loop-state": 2, "PROV.sampler-setup": 7, "DA.self-attrs": 7, "DA.sampler": 9, "TT.complement": 1, "PROV.growth-edge": 6, "PAIR.sampler-consume": 2, "PROV.open-bonds": 6, "OWN.templates-sampler": 5, "ORD.sample-finalise": 5})
 prop("C17", ["tt_order_defaults", "own_mutable_defaults_sampler", "prov_sampler_setup", "da_self_attrs_sampler", "ord_complete_loops_mass", "da_sampler", "prov_stop_rule", "prov_weights", "tt_terminal_filter", "det_sampler", "ord_compute_mass", "det_shared_state_sampler"],
      "stop rule `sum < target` strict, sum starts at 0 and grows by the added fragment's mass on every iteration; weights are probabilities.get(b, 0) over the "
-     "same sequence, unweighted draw only without table; terminal filter truth table; every draw is random.* on ordered populations, seeded on every path "
+     "same sequence, unweighted draw only without table; terminal filter truth table; every draw goes through the sampler's own generator (random.Random(seed), created on every path of __init__) on ordered populations "
      "from the seed parameter before any draw; mass = sum over the hydrogen-completed copy",
      "statistical properties; floating point normalisation",
      floors={"TT.order-defaults": 2, "OWN.mutable-defaults": 1, "PROV.sampler-setup": 7, "DA.self-attrs": 7, "ORD.complete-loops": 1, "DA.sampler": 9, "DET.shared-state": 8, "PROV.stop-rule": 4, "PROV.weights": 3, "TT.terminal-filter": 2, "DET.sampler": 6, "ORD.compute-mass": 3})
@@ -295,7 +318,7 @@ _LATER = {
     "C02": "the per-node graph gets an edge exactly for the bonded pairs of its own atoms; atom names are set on every all-atom path on (fine graph, coarse graph); the hydrogen inheritance runs exactly for hydrogens bonded to an atom (truth table)",
     "C03": "helpers extracted from compatible() are interpreted too; options (legacy) are forwarded; no state survives between edges or calls",
     "C04": "the text of a ring marker (bare digit, % + all following digits, order symbol for the next marker only, marker ending the text) by abstract execution of the scan loop on representative tails; the set of rejection sites is the confirmed one (more: undecided); the scanner's loop-carried state is the confirmed one (more: undecided); no memoised parser; the symbol after a branch is read directly behind the brace or the multiplier number",
-    "C05": "order of the copy loop (pending order updated per copy), anchor entry of a recipe is (1, attributes, 1); `is not None` for the anchor key; the scanner's loop-carried state is the confirmed one",
+    "C05": "order of the copy loop (pending order updated per copy), anchor entry of a recipe is (1, attributes stored on the anchor node, 1); `is not None` for the anchor key; the scanner's loop-carried state is the confirmed one",
     "C06": "every level is read into an empty dictionary; fragments handed out by the readers are fresh objects; options are forwarded",
     "C07": "two-digit markers are written after the single-digit ones and the bare digit form only below 10; a new marker is chosen against the markers in use and released on closing; all traversal helpers start from the start node; a local edge-needs-symbol predicate equals the OpenSMILES rule",
     "C08": "which layer is written as atomistic SMILES (abstract execution for three layers); fragment symbol table equals the documented one incl. ':'; a %nn marker may end a fragment text",
